@@ -274,6 +274,8 @@ func runC11(w *World) *Result {
 	r.Rule("R-C11-regex", "probes: anchored; identifier-like probes end in \\b; terminated comment probe non-greedy", 3)
 	r.Rule("R-C11-bytes", "no uint8→string conversion in the lexer; the one-character accessor returns the character at every position below the length", 2)
 	CharAccessRule(w, r, "R-C11-bytes")
+	r.Rule("R-C11-int", "integer literals keep their value: parsed by an integer parser, never through a floating-point type", 1)
+	IntLiteralRule(w, r, "R-C11-int")
 	r.Rule("R-C11-pos", "arms that can consume \\n assign the row counter, and compute every position update from the consumed source text (not the decoded value)", 5)
 	r.Rule("R-C11-errors", "unterminated string and unknown character end in an error exit", 2)
 	r.Rule("R-C11-escapes", "escape sequences are decoded for their full length", 1)
@@ -1974,5 +1976,93 @@ func c12EOF(w *World, r *Result) {
 				r.Bad(rule, key, pos, "the look-ahead takes NEWLINE as the end of the construct but "+verdict+" for every other token, including the end of the input: the same program is accepted with a final newline and rejected without it")
 			}
 		}
+	}
+}
+
+// IntLiteralRule: "integers keep their value": the number stored in an integer literal node
+// is the result of an integer parser (strconv.Atoi / ParseInt) applied to the token's
+// text; a detour through a floating-point type rounds every literal above 2^53.
+func IntLiteralRule(w *World, r *Result, rule string) {
+	n := 0
+	for _, fn := range w.Funcs("parser") {
+		for _, b := range fn.Blocks {
+			for _, ins := range b.Instrs {
+				st, ok := ins.(*ssa.Store)
+				if !ok {
+					continue
+				}
+				fa, ok := st.Addr.(*ssa.FieldAddr)
+				if !ok || !isInt(st.Val.Type()) {
+					continue
+				}
+				pt, ok := fa.X.Type().Underlying().(*types.Pointer)
+				if !ok {
+					continue
+				}
+				named, ok := pt.Elem().(*types.Named)
+				if !ok || named.Obj().Name() != "IntegerLiteral" {
+					continue
+				}
+				// only values computed from text (constants are the parser's own literals)
+				if _, isConst := st.Val.(*ssa.Const); isConst {
+					continue
+				}
+				n++
+				key := fmt.Sprintf("intliteral:%s", FuncName(fn))
+				verdict := ""
+				seen := map[ssa.Value]bool{}
+				var back func(v ssa.Value, d int)
+				back = func(v ssa.Value, d int) {
+					if d > 6 || seen[v] || verdict == "bad" {
+						return
+					}
+					seen[v] = true
+					switch x := v.(type) {
+					case *ssa.Convert:
+						if b, ok := x.X.Type().Underlying().(*types.Basic); ok && b.Info()&types.IsFloat != 0 {
+							verdict = "bad"
+							return
+						}
+						back(x.X, d+1)
+					case *ssa.Extract:
+						back(x.Tuple, d+1)
+					case *ssa.Call:
+						switch calleeName(x) {
+						case "strconv.Atoi", "strconv.ParseInt":
+							if verdict == "" {
+								verdict = "ok"
+							}
+						case "strconv.ParseFloat":
+							verdict = "bad"
+						default:
+							if verdict == "" {
+								verdict = "unknown:" + calleeName(x)
+							}
+						}
+					case *ssa.Phi:
+						for _, e := range x.Edges {
+							back(e, d+1)
+						}
+					case *ssa.BinOp:
+						back(x.X, d+1)
+						back(x.Y, d+1)
+					case *ssa.UnOp:
+						back(x.X, d+1)
+					}
+				}
+				back(st.Val, 0)
+				switch {
+				case verdict == "ok":
+					r.Ok(rule, key, w.Pos(st.Pos()), "integer literal value = result of strconv.Atoi / ParseInt on the token text")
+				case verdict == "bad":
+					r.Bad(rule, key, w.Pos(st.Pos()), "the value of an integer literal passes through a floating-point number: literals above 2^53 are rounded (9007199254740993 becomes …992) and the largest int64 overflows")
+				default:
+					r.Bad(rule, key, w.Pos(st.Pos()), "cannot show that the value of an integer literal is the result of an integer parser ("+verdict+")")
+				}
+			}
+		}
+	}
+	if n == 0 {
+		r.Bad(rule, "intliteral:none", "-", "no construction of an integer literal from token text found")
 	}
 }
